@@ -120,6 +120,7 @@ pub fn explore_full<F: FnMut(&mut Chooser)>(mut f: F, stats: &mut Stats, cap: u6
     let mut n = 0u64;
     loop {
         let mut ch = Chooser::new(&prefix);
+        super::crumb::set_choices(&prefix);
         f(&mut ch);
         ch.assert_consumed();
         let changed = if first { 0 } else { prefix.len() - 1 };
@@ -150,6 +151,7 @@ pub fn explore_full<F: FnMut(&mut Chooser)>(mut f: F, stats: &mut Stats, cap: u6
 pub fn explore_deviations<F: FnMut(&mut Chooser)>(mut f: F, bound: usize, stats: &mut Stats) {
     fn rec<F: FnMut(&mut Chooser)>(f: &mut F, prefix: Vec<u32>, used: usize, bound: usize, stats: &mut Stats, root: bool) {
         let mut ch = Chooser::new(&prefix);
+        super::crumb::set_choices(&prefix);
         f(&mut ch);
         ch.assert_consumed();
         let changed = if root { 0 } else { prefix.len() - 1 };
